@@ -74,12 +74,19 @@ type c18Box struct {
 	yieldsAt  map[string]int // host yields seen when the header's first transmission happened
 	maxTx     map[string]int
 	lag       *vt.Lag // scheduling lag of this process (see vt.Lag); the box reports its own late sleeps to it
+	// a length character lowered by a fault: characters the receiver will read, their sum, the two
+	// characters it will take for the checksum
+	lenDown     map[string]int
+	lenSum      map[string]uint16
+	lenTail     map[string][]byte
+	coincidence bool
 }
 
 func newC18Box(faults []*c18Fault) *c18Box {
 	b := &c18Box{faults: faults, enabled: true, expectLen: map[string]bool{}, remaining: map[string]int{}, blockPos: map[string]int{}, blockIdx: map[string]int{},
 		hsIdx: map[string]map[string]int{"h2e": {}, "e2h": {}}, curFault: map[string]*c18Fault{}, enqSince: map[string]int{}, maxEnq: map[string]int{}, pendingEnq: map[string]bool{}, t0: time.Now(),
-		curHeader: map[string][]byte{}, attempts: map[string]int{}, yieldsAt: map[string]int{}, maxTx: map[string]int{}}
+		curHeader: map[string][]byte{}, attempts: map[string]int{}, yieldsAt: map[string]int{}, maxTx: map[string]int{},
+		lenDown: map[string]int{}, lenSum: map[string]uint16{}, lenTail: map[string][]byte{}}
 	return b
 }
 
@@ -136,6 +143,22 @@ func (b *c18Box) process(dir string, c byte) (out []byte, delay time.Duration) {
 				}
 			}
 		}
+		if k := b.lenDown[dir]; k > 0 {
+			// would the SHORT read (k characters + 2) happen to carry a valid checksum? (2^-16: E4 cannot
+			// detect that corruption; the case is then inconclusive)
+			switch {
+			case pos <= k:
+				b.lenSum[dir] += uint16(c)
+			case pos <= k+2:
+				b.lenTail[dir] = append(b.lenTail[dir], c)
+				if pos == k+2 && uint16(b.lenTail[dir][0])<<8|uint16(b.lenTail[dir][1]) == b.lenSum[dir] {
+					b.coincidence = true
+				}
+			}
+			if b.remaining[dir] == 0 {
+				b.lenDown[dir] = 0
+			}
+		}
 		f := b.curFault[dir]
 		if b.remaining[dir] == 0 {
 			b.curFault[dir] = nil
@@ -182,6 +205,23 @@ func (b *c18Box) process(dir string, c byte) (out []byte, delay time.Duration) {
 		b.curFault[dir] = f
 		if f != nil && f.kind == "drop" {
 			return nil, 0
+		}
+		if f != nil && (f.kind == "len-down" || f.kind == "len-up") {
+			// the fault hits the length character itself; the box keeps tracking the block by its true
+			// length, the receiver reads fewer (more) characters than were sent
+			fc := c
+			if f.kind == "len-down" && c > 10 {
+				fc = 10 + byte(f.pos%int(c-10))
+			} else if f.kind == "len-up" && c < 254 {
+				fc = c + 1 + byte(f.pos%int(254-c))
+			}
+			b.lenDown[dir] = 0
+			if fc < c {
+				b.lenDown[dir] = int(fc)
+				b.lenSum[dir], b.lenTail[dir] = 0, nil
+			}
+			b.curFault[dir] = nil
+			return []byte{fc}, 0
 		}
 		return []byte{c}, 0
 	}
@@ -290,7 +330,7 @@ func (l *tokLog) snapshot() []string {
 }
 
 func TestC18ExactlyOnce(t *testing.T) {
-	ev.Rule("an equipment (passive) and a host (active) secs1 connection joined by a character-level middlebox (real time, T1 50 ms, T2 150 ms, retry limit 0..3); each side sends 1-4 messages of 1-4 blocks sequentially, the two sides concurrently (contention); fault plan of 0-3 faults, each hitting one occurrence: flip one character of a block's header/body/checksum, truncate a block, drop a block, drop an ENQ / EOT / ACK / NAK, replace an ACK by NAK, delay an ACK beyond T2; oracle: every send that returned success was delivered exactly once and intact, deliveries per direction follow send order, no message is delivered twice or altered whatever its send returned, one block is transmitted at most retry-limit+1 times on a line generation (the host: per contention yield), all sends finish within a generous bound, and after any failed send the link comes back and a fresh message in each direction goes through; non-trivial = a fault hit a block or handshake character, or contention occurred")
+	ev.Rule("an equipment (passive) and a host (active) secs1 connection joined by a character-level middlebox (real time, T1 50 ms, T2 150 ms, retry limit 0..3); each side sends 1-4 messages of 1-4 blocks (text = unique token + filler: plain, the line's control characters, or complete ghost block images addressed to the receiver) sequentially, the two sides concurrently (contention); fault plan of 0-3 faults, each hitting one occurrence: flip one character of a block's header/body/checksum, lower or raise a block's length character, truncate a block, drop a block, drop an ENQ / EOT / ACK / NAK, replace an ACK by NAK, delay an ACK beyond T2; oracle: every send that returned success was delivered exactly once and intact, deliveries per direction follow send order, no message is delivered twice or altered whatever its send returned, one block is transmitted at most retry-limit+1 times on a line generation (the host: per contention yield), all sends finish within a generous bound, and after any failed send the link comes back and a fresh message in each direction goes through; non-trivial = a fault hit a block or handshake character, or contention occurred")
 	vt.Check(t, 400, 12000, func(rt *rapid.T) { runC18(rt) })
 }
 
@@ -345,7 +385,7 @@ func runC18(rt *rapid.T) {
 		f := &c18Fault{dir: rapid.SampledFrom([]string{"h2e", "e2h"}).Draw(rt, "dir")}
 		if rapid.Bool().Draw(rt, "onBlock") {
 			f.class = "block"
-			f.kind = rapid.SampledFrom([]string{"flip", "flip", "truncate", "drop"}).Draw(rt, "blockFault")
+			f.kind = rapid.SampledFrom([]string{"flip", "flip", "truncate", "drop", "len-down", "len-down", "len-up"}).Draw(rt, "blockFault")
 			f.index = rapid.IntRange(0, 5).Draw(rt, "blockIndex")
 			f.pos = rapid.IntRange(1, 200).Draw(rt, "pos")
 		} else {
@@ -435,6 +475,13 @@ func runC18(rt *rapid.T) {
 		// land while the sender waits for EOT; the box must forward within T1/T2). If this process was
 		// scheduled more than c18MaxLag late during the case, the line saw timing faults nobody planned
 		// (a late EOT, two grants in flight - outside what E4 bounds): inconclusive, not a violation.
+		box.mu.Lock()
+		coincidence := box.coincidence
+		box.mu.Unlock()
+		if coincidence {
+			ev.Count("inconclusive_checksum_coincidence", 1)
+			rt.Skip("inconclusive: a shortened block happened to carry a valid checksum (E4 cannot detect that)")
+		}
 		if lag.Max() > c18MaxLag {
 			ev.Count("inconclusive_starved_machine", 1)
 			rt.Skip(fmt.Sprintf("inconclusive: this process was scheduled %v late (limit %v)", lag.Max(), c18MaxLag))
@@ -455,26 +502,48 @@ func runC18(rt *rapid.T) {
 		tok string
 		err error
 	}
-	mkTok := func(side string, i int, blocks int) string {
+	// message text: a unique token, then filler up to the wanted number of blocks. The filler is plain,
+	// or made of the line's own control characters, or of complete well-formed "ghost" block images
+	// (ENQ + a single-block message addressed to the receiver): whatever a receiver mistakes for line
+	// traffic after losing its place inside a block shows up as strays, retries or a ghost delivery.
+	ghost := func(toHost bool) string {
+		g := e4.Split(e4.Message{Device: device, R: toHost, Stream: 1, Function: 9, Sys: 0x68057a7a, Body: []byte{0x41, 0x05, 'G', 'H', 'O', 'S', 'T'}})[0].Bytes()
+		return string(append([]byte{e4.ENQ}, g...))
+	}
+	mkTok := func(side string, i int, blocks int, fill string) string {
 		n := (blocks-1)*244 + 20
 		s := fmt.Sprintf("%s%d-", side, i)
-		return s + strings.Repeat("x", n-len(s))
+		unit := "x"
+		switch fill {
+		case "soup":
+			unit = string([]byte{e4.ENQ, e4.EOT, e4.ACK, e4.NAK})
+		case "ghost":
+			unit = ghost(side == "e")
+		}
+		for len(s) < n {
+			s += unit
+		}
+		return s[:n]
 	}
+	fills := []string{"plain", "plain", "soup", "ghost"}
 	nh, ne := rapid.IntRange(1, 4).Draw(rt, "hostMsgs"), rapid.IntRange(1, 4).Draw(rt, "equipMsgs")
 	hb, eb := make([]int, nh), make([]int, ne)
+	hf, ef := make([]string, nh), make([]string, ne)
 	for i := range hb {
 		hb[i] = rapid.IntRange(1, 4).Draw(rt, "hostBlocks")
+		hf[i] = rapid.SampledFrom(fills).Draw(rt, "hostFill")
 	}
 	for i := range eb {
 		eb[i] = rapid.IntRange(1, 4).Draw(rt, "equipBlocks")
+		ef[i] = rapid.SampledFrom(fills).Draw(rt, "equipFill")
 	}
 	stagger := time.Duration(rapid.SampledFrom([]int{0, 0, 0, 5, 30}).Draw(rt, "staggerMs")) * time.Millisecond
 	var wg sync.WaitGroup
-	run := func(c secs1.Connection, side string, blocks []int, fn byte, delay time.Duration, out *[]sent) {
+	run := func(c secs1.Connection, side string, blocks []int, fillOf []string, fn byte, delay time.Duration, out *[]sent) {
 		defer wg.Done()
 		time.Sleep(delay)
 		for i, nb := range blocks {
-			tok := mkTok(side, i, nb)
+			tok := mkTok(side, i, nb, fillOf[i])
 			ctx, cancel := ctxT(20 * time.Second)
 			_, err := c.SendDataMessage(ctx, 1, fn, false, secs2.A(tok))
 			cancel()
@@ -488,8 +557,8 @@ func runC18(rt *rapid.T) {
 	var hs, es []sent
 	start := time.Now()
 	wg.Add(2)
-	go run(ho, "h", hb, 1, 0, &hs)
-	go run(eq, "e", eb, 3, stagger, &es)
+	go run(ho, "h", hb, hf, 1, 0, &hs)
+	go run(eq, "e", eb, ef, 3, stagger, &es)
 	fin := make(chan struct{})
 	go func() { wg.Wait(); close(fin) }()
 	bound := time.Duration(nh+ne)*4*time.Duration(rty+2)*3*c18T2 + 20*time.Second
